@@ -69,20 +69,42 @@ impl EventParser {
 
     /// Extract the type name from a Type, handling references and generic wrappers
     fn extract_type_name(&self, ty: &Type) -> String {
+        self.type_text(ty).unwrap_or_else(|| "unknown".to_string())
+    }
+
+    /// Text of a type as the type resolver reads it: the last path segment together with its
+    /// generic type arguments (`Vec<Player>`, not `Vec`), references stripped, tuples kept.
+    /// None when some part of the type has no such text
+    fn type_text(&self, ty: &Type) -> Option<String> {
         match ty {
-            Type::Reference(type_ref) => {
-                // Handle &T and &mut T - extract the inner type
-                self.extract_type_name(&type_ref.elem)
+            // Handle &T and &mut T - extract the inner type
+            Type::Reference(type_ref) => self.type_text(&type_ref.elem),
+            Type::Tuple(type_tuple) => {
+                let elems: Option<Vec<String>> =
+                    type_tuple.elems.iter().map(|e| self.type_text(e)).collect();
+                Some(format!("({})", elems?.join(", ")))
             }
             Type::Path(type_path) => {
                 // Get the last segment of the path (the actual type name)
-                if let Some(segment) = type_path.path.segments.last() {
-                    segment.ident.to_string()
-                } else {
-                    "unknown".to_string()
+                let segment = type_path.path.segments.last()?;
+                let name = segment.ident.to_string();
+                if let syn::PathArguments::AngleBracketed(args) = &segment.arguments {
+                    let inner: Option<Vec<String>> = args
+                        .args
+                        .iter()
+                        .filter_map(|arg| match arg {
+                            syn::GenericArgument::Type(inner_ty) => Some(self.type_text(inner_ty)),
+                            _ => None,
+                        })
+                        .collect();
+                    let inner = inner?;
+                    if !inner.is_empty() {
+                        return Some(format!("{}<{}>", name, inner.join(", ")));
+                    }
                 }
+                Some(name)
             }
-            _ => "unknown".to_string(),
+            _ => None,
         }
     }
 
